@@ -58,12 +58,11 @@ Theorem C11_regular_output_meaning :
   forall f, regular_output f = negb (f_detached f) && negb (f_state f =? FS_VOLATILE).
 Proof. exact regular_output_meaning. Qed.
 
-(* After the metadata updates (same hypotheses as C10_update_meta_correct_partial): every dispatched
-   step is needed above the threshold, and a step that nothing else holds back is dispatched iff it
-   is needed above the threshold. *)
-Theorem C11_executed_iff_needed_partial :
+(* After the metadata updates (hypotheses of C10_update_meta_correct): every dispatched step is
+   needed above the threshold, and a step that nothing else holds back is dispatched iff it is
+   needed above the threshold. *)
+Theorem C11_executed_iff_needed :
   forall g, WF g -> Acyclic g -> FlagInv g -> HasHashInv g ->
-    (safe_merge = MergeDeepest \/ NoStaleLow g) ->
     exists g', update_meta g = Some g' /\ AllCorrect g' /\
       (forall s, In s (dispatch_set g') ->
          ND_OPTIONAL < need_spec g' (s_key s) /\ g_threshold g' < need_spec g' (s_key s)) /\
@@ -72,17 +71,15 @@ Theorem C11_executed_iff_needed_partial :
          fst (safe_spec g' s) = true -> ready_spec g' (s_key s) = true -> res_unavailable g' s = false ->
          (In s (dispatch_set g') <->
           ND_OPTIONAL < need_spec g' (s_key s) /\ g_threshold g' < need_spec g' (s_key s))).
-Proof. exact executed_iff_needed_gen. Qed.
+Proof. exact executed_iff_needed_repo. Qed.
 
-(* D8 makes an unneeded optional step run: the dispatch set then contains a step whose need_spec is
-   OPTIONAL (same witness as C10_del_dep_need_flag_refuted_when_sink_only). *)
-Theorem C11_unneeded_step_dispatched_refuted_when_sink_only :
-  trg_dep_del = trg_dep_del_sink_only ->
+(* D8 (fixed by f76dbc9): with the earlier delete trigger an unneeded optional step ran: the dispatch
+   set contained a step whose need_spec is OPTIONAL. *)
+Theorem C11_unneeded_step_dispatched_refuted_for_sink_only_trigger :
   exists g d, WF g /\ Acyclic g /\ AllCorrect g /\ HasHashInv g /\
-    forall pol, exists g', update_meta_with pol (del_dep g d) = Some g' /\
+    forall pol, exists g', update_meta_with pol (del_dep_with trg_dep_del_sink_only g d) = Some g' /\
       exists s, In s (dispatch_set g') /\ eligible_spec g' s = false.
 Proof.
-  intros H. unfold del_dep. rewrite H.
   destruct del_dep_sink_only_refuted as [g [d [H1 [H2 [H3 [H4 [_ H5]]]]]]].
   exists g, d. split; [exact H1|]. split; [exact H2|]. split; [exact H3|]. split; [exact H4|].
   intros pol. destruct (H5 pol) as [g' [Ha [_ Hb]]]. exists g'. split; assumption.
